@@ -47,6 +47,8 @@ thread_local! {
     static COMPARISONS: RefCell<Vec<u128>> = RefCell::new(vec![]);
     static NARROWINGS: RefCell<Vec<(u128, u64)>> = RefCell::new(vec![]);
     static WIDENINGS: RefCell<u64> = RefCell::new(0);
+    static WIDENED: RefCell<Vec<u64>> = RefCell::new(vec![]);
+    static PI_CALLS: RefCell<u64> = RefCell::new(0);
 }
 
 #[derive(Clone, Debug)]
@@ -78,7 +80,10 @@ impl PartialOrd for Tr {
 impl MomTropFloat for Tr {
     fn one(&self) -> Self { Tr { v: 1.0, deps: 0 } }
     fn zero(&self) -> Self { Tr { v: 0.0, deps: 0 } }
-    fn PI(&self) -> Self { Tr { v: std::f64::consts::PI, deps: 0 } }
+    fn PI(&self) -> Self {
+        PI_CALLS.with(|w| *w.borrow_mut() += 1);
+        Tr { v: std::f64::consts::PI, deps: 0 }
+    }
     fn ln(&self) -> Self { self.un(self.v.ln()) }
     fn exp(&self) -> Self { self.un(self.v.exp()) }
     fn cos(&self) -> Self { self.un(self.v.cos()) }
@@ -90,6 +95,7 @@ impl MomTropFloat for Tr {
     fn from_isize(&self, value: isize) -> Self { Tr { v: value as f64, deps: 0 } }
     fn from_f64(&self, value: f64) -> Self {
         WIDENINGS.with(|w| *w.borrow_mut() += 1);
+        WIDENED.with(|w| w.borrow_mut().push(f2b(value)));
         Tr { v: value, deps: 0 }
     }
     fn to_f64(&self) -> f64 {
@@ -155,12 +161,17 @@ fn op_sample_track(j: &Value) -> Value {
         COMPARISONS.with(|c| c.borrow_mut().clear());
         NARROWINGS.with(|c| c.borrow_mut().clear());
         WIDENINGS.with(|c| *c.borrow_mut() = 0);
+        WIDENED.with(|c| c.borrow_mut().clear());
+        PI_CALLS.with(|c| *c.borrow_mut() = 0);
         let gen = SampleGenerator::<D>::verif_from_parts(get_sig(j), table);
         let r = gen.generate_sample_from_x_space_point(&xs, edge_data, &st, &logger);
         let cmp: Vec<Vec<usize>> = COMPARISONS.with(|c| c.borrow().iter().map(|&d| bits_of(d)).collect());
         let narrow: Vec<Value> = NARROWINGS.with(|c| c.borrow().iter().map(|&(d, b)| json!({"deps": bits_of(d), "value": b})).collect());
         let widen = WIDENINGS.with(|c| *c.borrow());
+        let widened: Vec<u64> = WIDENED.with(|c| { let mut v = c.borrow().clone(); v.sort(); v.dedup(); v });
+        let pi_calls = PI_CALLS.with(|c| *c.borrow());
         let mut out = json!({
+            "widened_values": widened, "pi_calls": pi_calls,
             "dimension": gen.get_dimension(),
             "x_deps": xf.iter().map(|t| bits_of(t.deps)).collect::<Vec<_>>(),
             "x": xf.iter().map(|t| f2b(t.v)).collect::<Vec<_>>(),
